@@ -102,7 +102,12 @@ def main():
             return (' ' + ' '.join(out)) if out else ''
         params = ', '.join('%s%s %%a%d' % (t, abi_attr(k), k) for k, t in enumerate(ptys))
         if f.vararg: params += ', ...'
-        callargs = ', '.join('%s %%a%d' % (t, k) for k, t in enumerate(ptys))
+        def call_attr(k):
+            # the stub itself may take the argument byval (same C++ type as the original): the call site must say so
+            toks = getattr(tf, 'pattrs', {}).get(k, [])
+            out = ['%s(%s)' % (vv, tstr(f.params[k][0][1])) for (kk, vv) in toks if vv == 'byval' and f.params[k][0][0] == 'ptr']
+            return (' ' + ' '.join(out)) if out else ''
+        callargs = ', '.join('%s%s %%a%d' % (t, call_attr(k), k) for k, t in enumerate(ptys))
         body = ['define internal %s %s(%s) noinline {' % (tstr(f.ret), qn, params)]
         callee = '@%s' % cname if fty == tty else 'bitcast (%s* @%s to %s*)' % (tty, cname, fty)
         if f.ret == ir2c.VOID:
